@@ -344,3 +344,50 @@ def run_shape_vector(vec, tid: str, prop: str, variant: int = 0) -> dict:
     rec.do("move", [a], gather=g, model=[model] if model else [], **params)
     rec.meta["source"] = "MC_Shape"
     return rec.to_json()
+
+
+def attr_vectors(dump_path: str):
+    out, _ = vectors(dump_path)
+    out = [v for v in out if v["kind"] == "attr"]
+    return out, {"vectors": len(out)}
+
+
+def run_attr_vector(vec, tid: str, prop: str, variant: int = 0) -> dict:
+    from .project import num
+    reset_options()
+    rec = Recorder(tid, prop)
+    rec.do("set_options", [], keep=False, kw={"retain_coefficients": vec["grc"], "retain_names": vec["grn"]}, bad=[], prop="C14")
+    new = rec.do("from_attributes", [], rows=[list(r) for r in vec["rows"]], coefs=[[num(c)] for c in vec["coefs"]], shape=[],
+                 names=[0, 1], rc=vec["rc"], rn=vec["rn"], via=("function", "classmethod", "clean_attributes")[variant % 3],
+                 dtype="int64")
+    if new:
+        rec.do("rebuild", new, keep=False, via=("attributes", "raw", "todict")[(variant // 3) % 3])
+    reset_options()
+    rec.meta["source"] = "MC_Attr"
+    return rec.to_json()
+
+
+def text_vectors(dump_path: str):
+    out, _ = vectors(dump_path)
+    out = [v for v in out if v["kind"] == "text"]
+    return out, {"vectors": len(out)}
+
+
+def run_text_vector(vec, tid: str, prop: str, variant: int = 0) -> dict:
+    """A two-element array [a, b] printed under the given display order and retain_names setting."""
+    reset_options()
+    rec = Recorder(tid, prop)
+    kw = {"display_graded": vec["graded"], "display_reverse": vec["reverse"], "display_inverse": bool(variant % 2),
+          "retain_names": vec["retain_names"]}
+    rec.do("set_options", [], keep=False, kw=kw, bad=[], prop="C14")
+    rows = sorted({tuple(r) for r in list(vec["a"]) + list(vec["b"])})
+    coefs = [[1 if r in [tuple(x) for x in vec["a"]] else 0, 1 if r in [tuple(x) for x in vec["b"]] else 0] for r in rows]
+    coef = (1, -2, 1.5)[variant % 3]
+    coefs = [[c * coef for c in row] for row in coefs]
+    a = rec.new(build_poly({"shape": [2], "names": [0, 1], "rows": [list(r) for r in rows], "coefs": coefs,
+                            "dtype": "float64" if isinstance(coef, float) else "int64"}))
+    for fn in (("str", "repr"), ("array_str", "array_repr"))[variant % 2]:
+        rec.do("text", [a], keep=False, fn=fn, lexerror="", terms=[], text="")
+    reset_options()
+    rec.meta["source"] = "MC_Text"
+    return rec.to_json()
